@@ -1242,6 +1242,8 @@ def compare_tokens(run: Run, cases: list[tuple[str, list]], origin: str = 'gen')
         if ci != cs:
             run.disagree(Disagreement(case, ci, cm, cs, what='tree-vs-ebnf', site='Parser.expression / led / nud',
                                       tags=a['trig']))
+        elif ci != cm and 'F04o' in a['trig']:
+            st.count('model-tie-skipped:F04o')     # the model parses a parenthesised arrow specifier as an ordinary expression (finding F04o)
         elif ci != cm:
             run.disagree(Disagreement(case, ci, cm, cs, what='model', site='operator table'))
         opaque = any(t[0] == 'a' and t[1] >= 7 for t in toks)      # operands whose text the Lean model does not render
@@ -1972,7 +1974,7 @@ def correspond(run: Run) -> None:
         cases.append((v, toks))
     run.stats.extra['skipped_out_of_fragment'] = skipped
     run.stats.rule = ('token sequences = in-order yield of random trees (1..9 operators quick / 1..12 thorough) over all '
-                      'modelled operators of the version (infix, prefix, typed, predicate, call, lookup, comma) with '
+                      'modelled operators of the version (infix, prefix, typed, predicate, call, lookup, comma, 3.1: arrow `=>` with specifier and argument list) with '
                       'operands name/integer/variable/string (3.1: also unary lookups ?name ?int ?*), sequence types = 12 bases x occurrence indicator none/?/*/+ with `*`, `+`, `?`-led continuations after the type (occurrence-indicators constraint, normalised by EPV.EBNF.absorbOcc), every subtree parenthesised with probability 0/0.15/0.4; '
                       'compared: tree of the real parser (syntactic phase) vs Lean Pratt model with the generated table vs '
                       'Lean EBNF reference parser; then source round trip (tree, value), whitespace/comment variants, '
